@@ -48,11 +48,15 @@ def run(pid, tier, seed):
     hf, hp, hi = testcorpus.harvest(V.REPO)
     rr = random.Random(seed)
     prs = prs + hp + [(f, rr.choice(hi)) for f in hf for _ in range(2 if tier == "quick" else 12)]
-    fmts = sorted(set(f for f, _ in prs if 0 not in f))
+    # + civil times around real transitions x seconds 59/60, each tried in every zone of the driver
+    tps = parsegen.transition_pairs(seed, 0.3 if tier == "quick" else 1.0)
+    fmts = sorted(set(f for f, _ in prs + tps if 0 not in f))
     dele = delegated(work, fmts, verdict)
     with open(os.path.join(work, "in.txt"), "w") as f:
         for fm, s in prs:
             f.write("P %s %s %s\n" % (fm.hex() or "-", s.hex() or "-", " ".join(d.hex() for d in dele.get(fm, []))))
+        for fm, s in tps:
+            f.write("A %s %s %s\n" % (fm.hex() or "-", s.hex() or "-", " ".join(d.hex() for d in dele.get(fm, []))))
     states = trans = events = 0
     samples = []
     acc = rej = 0
